@@ -2,6 +2,8 @@
 SPEC = {
     "bins": [
         {"name": "c05", "pkg": "./zz_verif/c05", "run": ".", "shards": {"quick": 4, "thorough": 16}},
+        {"name": "c05-wb-ed25519", "pkg": "./sign/ed25519", "run": "^TestVerifC05", "whitebox": True, "shards": {"quick": 1, "thorough": 8}},
+        {"name": "c05-wb-goldilocks", "pkg": "./ecc/goldilocks", "run": "^TestVerifC05", "whitebox": True, "shards": {"quick": 1, "thorough": 8}},
     ],
     "rule": "TODO",
     "assumptions": COMMON_ASSUME,
